@@ -8,6 +8,10 @@ from vk.specs import universe as U
 def hamiltonian(name, n, rng, scale=1.0):
     """returns (model_with_terms, terms).  Hermitian by construction (each hopping comes with its adjoint)."""
     from renormalizer.model import Model, Op
+    # "<name>-flux": the same model with complex hopping amplitudes J e^{i phi} (and the conjugate on the adjoint term): a complex HERMITIAN Hamiltonian
+    flux = name.endswith("-flux")
+    name = name[:-5] if flux else name
+    phase = (lambda: complex(np.exp(1j * float(rng.uniform(0.3, 2.8))))) if flux else (lambda: 1.0)
     model0, sectors = S.model_zoo(name, n)
     basis = model0.basis
     qs = model0.qn_size
@@ -34,8 +38,9 @@ def hamiltonian(name, n, rng, scale=1.0):
             same_species = name != "spin2qn"
             j = i + 1 if same_species else i + 2
             if j < n:
-                terms.append(one("sigma_+", dofs[i]) * one("sigma_-", dofs[j]) * J)
-                terms.append(one("sigma_-", dofs[i]) * one("sigma_+", dofs[j]) * J)
+                ph = phase()
+                terms.append(one("sigma_+", dofs[i]) * one("sigma_-", dofs[j]) * (J * ph))
+                terms.append(one("sigma_-", dofs[i]) * one("sigma_+", dofs[j]) * (J * np.conj(ph)))
             terms.append(one("sigma_z", dofs[i]) * one("sigma_z", dofs[i + 1]) * (scale * float(rng.uniform(-0.4, 0.4))))
         if name == "spin":
             for i in range(n):
@@ -47,8 +52,9 @@ def hamiltonian(name, n, rng, scale=1.0):
             terms.append(one(r"a^\dagger a", d, scale * float(rng.uniform(-0.3, 0.3))))
         for i in range(len(e) - 1):
             J = scale * float(rng.uniform(0.3, 0.8))
-            terms.append(one(r"a^\dagger", e[i]) * one("a", e[i + 1]) * J)
-            terms.append(one("a", e[i]) * one(r"a^\dagger", e[i + 1]) * J)
+            ph = phase()
+            terms.append(one(r"a^\dagger", e[i]) * one("a", e[i + 1]) * (J * ph))
+            terms.append(one("a", e[i]) * one(r"a^\dagger", e[i + 1]) * (J * np.conj(ph)))
         for i, d in enumerate(v):
             b = model0.dof_to_basis[d]
             terms.append(one(r"b^\dagger b", d, scale * b.omega))
